@@ -324,9 +324,12 @@ func (p *c18) Init(tier string) {
 	}
 }
 
-func (p *c18) NumCases() int { return len(p.cases) }
+func (p *c18) NumCases() int { return len(p.cases) + 1 }
 
 func (p *c18) Describe(i int) any {
+	if i == len(p.cases) {
+		return map[string]any{"function": "CONSTANT", "kind": "the constants map changed by the caller after New: 5 queries x every sequence of two of 5 changes; the query built before, and a second query given the same option value, must return what a query built with the current constants returns"}
+	}
 	c := p.cases[i]
 	f := &p.fns[c.fn]
 	if c.kind == "contexts" {
@@ -653,6 +656,10 @@ func (p *c18) runRoundTrip(r *core.CaseResult) {
 
 func (p *c18) RunCase(i int) *core.CaseResult {
 	r := &core.CaseResult{}
+	if i == len(p.cases) {
+		runChangedC18(r)
+		return r
+	}
 	c := p.cases[i]
 	f := &p.fns[c.fn]
 	if c.kind == "roundtrip" {
